@@ -469,6 +469,274 @@ def stream_packings(ck: Check, ops, expect):
             expect.append(("packing", "decoded", line, f"s={cps(s)} back=1", None))
 
 
+# ------------------------------------------------------------------ CSV: PackingResult
+OBJ_NAMES = ["binCount", "binCountAndEmpty", "binCountAndLastEmpty", "binCountAndLastSkyline",
+             "binCountAndLastSmall", "binCountAndLowestSkyline", "binCountAndSmall"]
+BB_KEYS = ["bins.lowerBound", "bins.lowerBound.damv", "bins.lowerBound.geometric"]
+
+
+def cc(s: str) -> str:
+    return "c" + cps(s)
+
+
+def uncc(t: str) -> str:
+    assert t[:1] == "c", t
+    return uncps(t[1:])
+
+
+def fmap(m) -> str:
+    return "|".join(f"{cc(k)}={int(v)}" for k, v in sorted(m.items()))
+
+
+def er_cells(er):
+    """(titles, cells) of one end result as moptipy's own writer renders it (set up on this record alone)"""
+    from moptipy.evaluation.end_results import CsvWriter as ErW
+    w = ErW().setup([er])
+    return list(w.get_column_titles()), list(w.get_row(er))
+
+
+def canon_rec(r) -> str:
+    """canonical text of a PackingResult (all fields), the format of the driver's `read=`"""
+    t, c = er_cells(r.end_result)
+    er = "|".join(f"{cc(k)}={cc(v)}" for k, v in zip(t, c) if v != "")
+    return (f"{er}/{r.n_items},{r.n_different_items},{r.bin_width},{r.bin_height}/"
+            f"{fmap(r.objectives)}/{fmap(r.objective_bounds)}/{fmap(r.bin_bounds)}")
+
+
+def canon_model_read(tok: str) -> str:
+    """drop the blank cells of the embedded record from the driver's `read=` value"""
+    if tok in ("ERR", ""):
+        return tok
+    out = []
+    for rec in tok.split("~"):
+        parts = rec.split("/")
+        er = "|".join(kv_ for kv_ in parts[0].split("|") if not kv_.endswith("=c"))
+        out.append("/".join([er] + parts[1:]))
+    return "~".join(out)
+
+
+def parse_csv_file(path):
+    """header and rows of a pycommons CSV file (comment lines dropped) — the tokenisation is pycommons', not modelled"""
+    hdr, rows = None, []
+    for ln in open(path, encoding="utf-8").read().splitlines():
+        i = ln.find("#")
+        if i >= 0:
+            ln = ln[:i]
+        ln = ln.strip()
+        if not ln:
+            continue
+        cells = [c.strip() for c in ln.split(";")]
+        if hdr is None:
+            hdr = cells
+        else:
+            rows.append(cells)
+    return hdr, rows
+
+
+def er_equal(a, b) -> bool:
+    fs = ("algorithm", "instance", "objective", "encoding", "rand_seed", "best_f", "last_improvement_fe",
+          "last_improvement_time_millis", "total_fes", "total_time_millis", "goal_f", "max_fes", "max_time_millis")
+    return all(getattr(a, f) == getattr(b, f) and type(getattr(a, f)) is type(getattr(b, f)) for f in fs)
+
+
+def real_experiment_results(ck: Check):
+    """a few tiny real runs (2 algorithms x 2 encodings x 2 objectives x 2 instances x 2 seeds) -> PackingResults"""
+    import shutil
+    from moptipy.api.experiment import run_experiment
+    from moptipyapps.binpacking2d import experiment as ex
+    from moptipyapps.binpacking2d import packing_result as pr
+    from moptipyapps.binpacking2d.encodings.ibl_encoding_1 import ImprovedBottomLeftEncoding1
+    from moptipyapps.binpacking2d.encodings.ibl_encoding_2 import ImprovedBottomLeftEncoding2
+    from moptipyapps.binpacking2d.instance import Instance
+    from moptipyapps.binpacking2d.objectives.bin_count_and_last_empty import BinCountAndLastEmpty
+    from moptipyapps.binpacking2d.objectives.bin_count_and_last_small import BinCountAndLastSmall
+    d = ck.work / "exp"
+    shutil.rmtree(d, ignore_errors=True)
+    d.mkdir(parents=True)
+    k = 0
+    for enc in (ImprovedBottomLeftEncoding1, ImprovedBottomLeftEncoding2):
+        for obj in (BinCountAndLastEmpty, BinCountAndLastSmall):
+            k += 1
+
+            def mk(algo, k=k, enc=enc, obj=obj):
+                def f(ins):
+                    e = algo(ins, enc, obj).set_max_fes(12 + k, True)
+                    if k % 2 == 0:
+                        e.set_max_time_millis(100000)
+                    return e
+                return f
+            run_experiment(base_dir=str(d / f"o{k}"),
+                           instances=[lambda: Instance.from_resource("a01"), lambda: Instance.from_resource("beng01")],
+                           setups=[mk(ex.rls), mk(ex.fea)], n_runs=2, perform_warmup=False, perform_pre_warmup=False)
+    res = []
+    pr.from_logs(str(d), res.append)
+    return res
+
+
+def rand_result(ck: Check, objs, bbkeys, het: bool):
+    """a PackingResult around a directly constructed real EndResult"""
+    from moptipy.evaluation.end_results import EndResult
+    from moptipyapps.binpacking2d.packing_result import PackingResult
+    rng = ck.rng
+    myobjs = list(objs)
+    if het and len(myobjs) > 1 and rng.random() < 0.4:
+        myobjs.remove(rng.choice(myobjs))
+    bins = rng.randint(1, 50)
+    vals, bounds = {}, {}
+    for o in myobjs:
+        lo = rng.choice([0, 1, bins, 10**6])
+        v = bins if o == "binCount" else lo + rng.choice([0, 1, 7, 999, 10**9, 10**15])
+        if o == "binCount":
+            lo = rng.randint(1, bins)
+        hi = v + rng.choice([0, 1, 10**6])
+        vals[o], bounds[o + ".lowerBound"], bounds[o + ".upperBound"] = v, lo, hi
+    mybb = [b for b in bbkeys if not (het and rng.random() < 0.3)]
+    bb = {b: rng.randint(1, bins if "binCount" in vals else 10**9) for b in mybb}
+    obj = rng.choice(myobjs)
+    tf = rng.randint(1, 10**6)
+    tt = rng.randint(0, 10**6)
+    er = EndResult(rng.choice(["rls", "fea1p1_swap2", "a_b"]), rng.choice(["a01", "beng01", "inst_x"]), obj,
+                   rng.choice([None, "ibf1", "ibf2"]), rng.getrandbits(64), vals[obj],
+                   rng.randint(1, tf), rng.randint(0, tt), tf, tt,
+                   rng.choice([None, None, min(vals[obj], bounds[obj + ".lowerBound"])]),
+                   rng.choice([None, tf, tf + 5, 10**9]), rng.choice([None, tt + 1, 10**7]))
+    nd = rng.choice([1, 5, 10**6])
+    return PackingResult(er, rng.choice([nd, nd + 7, 10**12]), nd, rng.choice([1, 100, 10**12]),
+                         rng.choice([1, 50, 10**12]), vals, bounds, bb)
+
+
+def gen_result_sets(ck: Check):
+    rng, quick = ck.rng, ck.quick
+    real = real_experiment_results(ck)
+    yield "real", real
+    for _ in range(3 if quick else 30):
+        yield "real_subset", rng.sample(real, rng.randint(1, len(real)))
+    for _ in range(40 if quick else 1200):
+        k = rng.choice([1, 1, 2, 3, 5, 9])
+        objs = sorted(rng.sample(OBJ_NAMES, rng.choice([1, 2, 2, 3, 7])))
+        bbk = rng.choice([BB_KEYS, BB_KEYS, BB_KEYS[:1], BB_KEYS[1:], [BB_KEYS[2]]])
+        het = rng.random() < 0.5
+        yield ("random_het" if het else "random"), [rand_result(ck, objs, bbk, het) for _ in range(k)]
+
+
+def mutate_table(ck: Check, hdr, rows, n_er):
+    """malformed / perturbed tables for the readers: (what, header, rows); only the columns of the packing classes are
+    damaged — the columns of the embedded moptipy record are read by moptipy's own (opaque) reader"""
+    rng = ck.rng
+    out = [("asis", hdr, rows)]
+    n = len(hdr)
+    for _ in range(6):
+        i = rng.randrange(n_er, n)
+        out.append((f"drop:{hdr[i]}", hdr[:i] + hdr[i + 1:], [r[:i] + r[i + 1:] for r in rows]))
+        out.append((f"rename:{hdr[i]}", hdr[:i] + [hdr[i] + "X"] + hdr[i + 1:], rows))
+        j = rng.randrange(n_er, n)
+        h2, r2 = list(hdr), [list(r) + [""] * (n - len(r)) for r in rows]
+        h2[i], h2[j] = h2[j], h2[i]
+        out.append((f"swaptitles:{hdr[i]}:{hdr[j]}", h2, rows))       # cells now under the wrong titles
+        for r in r2:
+            r[i], r[j] = r[j], r[i]
+        out.append((f"swapcols:{hdr[i]}:{hdr[j]}", h2, r2))            # a permuted table reads the same
+        k = rng.randrange(len(rows))
+        r3 = [list(r) + [""] * (n - len(r)) for r in rows]
+        r3[k][i] = rng.choice(["", "x", "1.5x", "-1"])
+        out.append((f"cell:{hdr[i]}={r3[k][i]}", hdr, r3))
+    out.append(("dup", hdr + [hdr[-1]], rows))
+    out.append(("long", hdr, [rows[0] + [""] * (n - len(rows[0])) + ["1"]] + rows[1:]))
+    out.append(("nobins", [h for h in hdr if not h.startswith("bins.")],
+                [[c for h, c in zip(hdr, r + [""] * n) if not h.startswith("bins.")] for r in rows]))
+    ub = [i for i, h in enumerate(hdr) if h.endswith(".upperBound")]
+    if ub:
+        i = ub[-1]
+        out.append(("oddbounds", hdr[:i] + hdr[i + 1:], [r[:i] + r[i + 1:] for r in rows]))
+    out.append(("norows", hdr, []))
+    out.append(("short", hdr, [r[:max(1, len(r) // 2)] for r in rows]))
+    return out
+
+
+def write_table(path, hdr, rows):
+    with open(path, "w", encoding="utf-8") as f:
+        f.write("# perturbed table\n" + ";".join(hdr) + "\n")
+        for r in rows:
+            f.write(";".join(r) + "\n")
+
+
+def stream_results(ck: Check, ops, expect):
+    from moptipy.evaluation.end_results import CsvWriter as ErW
+    from moptipyapps.binpacking2d import packing_result as pr
+    d = ck.work / "csv"
+    d.mkdir(exist_ok=True)
+    n_mut = 0
+    for idx, (stream, rs) in enumerate(gen_result_sets(ck)):
+        ck.count("csvR_" + stream)
+        ck.count(f"csvR_records", len(rs))
+        srt = sorted(rs)
+        path = str(d / f"r{idx % 50}.csv")
+        ctx = {"stream": stream, "records": [canon_rec(r) for r in srt[:6]]}
+        try:
+            pr.to_csv(rs, path)
+        except ERRS as e:
+            ck.spec(False, "csv_write", f"to_csv raised {type(e).__name__}: {e}", ctx)
+            continue
+        hdr, rows = parse_csv_file(path)
+        # --- C: the property on the implementation, field by field
+        try:
+            back = list(pr.from_csv(path))
+        except ERRS as e:
+            ck.spec(False, "csv_read", f"from_csv(to_csv(rs)) raised {type(e).__name__}: {e}", ctx)
+            back = None
+        if back is not None:
+            ck.spec(len(back) == len(srt), "csv_count", f"{len(srt)} records written, {len(back)} read", ctx)
+            for a, b in zip(srt, back):
+                c2 = {"written": canon_rec(a), "read": canon_rec(b)}
+                ck.spec(er_equal(a.end_result, b.end_result), "csv_end_result", "embedded end result differs after round trip", c2)
+                ck.spec((a.n_items, a.n_different_items, a.bin_width, a.bin_height)
+                        == (b.n_items, b.n_different_items, b.bin_width, b.bin_height), "csv_fixed",
+                        "nItems/nDifferentItems/binWidth/binHeight differ after round trip", c2)
+                ck.spec(dict(a.objectives) == dict(b.objectives), "csv_objectives", "objective values differ after round trip", c2)
+                ck.spec(dict(a.objective_bounds) == dict(b.objective_bounds), "csv_objective_bounds",
+                        "objective bounds differ after round trip", c2)
+                ck.spec(dict(a.bin_bounds) == dict(b.bin_bounds), "csv_binbound_keys",
+                        f"bin bounds differ after round trip: {dict(a.bin_bounds)} -> {dict(b.bin_bounds)}", c2)
+        # --- B: the model's table and the model's reader against the real file
+        erw = ErW().setup(r.end_result for r in srt)
+        titles = list(erw.get_column_titles())
+        recs = []
+        for r in srt:
+            cells = list(erw.get_row(r.end_result))
+            recs.append(f"{'|'.join(cc(c) for c in cells)} / {cc(r.end_result.objective)} / {int(r.end_result.best_f)} / "
+                        f"{r.n_items} {r.n_different_items} {r.bin_width} {r.bin_height} / {fmap(r.objectives)} / "
+                        f"{fmap(r.objective_bounds)} / {fmap(r.bin_bounds)}")
+        line = f"csvR {'|'.join(cc(t) for t in titles)} ; " + " ; ".join(recs)
+        ops.append(line)
+        ck.case(f"csvR {stream} " + " ~ ".join(canon_rec(r) for r in srt)[:3000])
+        iout = (f"hdr={'|'.join(cc(h) for h in hdr)} rows={'/'.join('|'.join(cc(c) for c in r) for r in rows)} "
+                f"read=" + ("ERR" if back is None else "~".join(canon_rec(b) for b in back)))
+        expect.append(("csvR", stream, line, iout, None))
+        opt = [k for k in ("encoding", "goalF", "maxFEs", "maxTimeMillis") if k in hdr]
+        ck.count("csvR_optcols_" + ("+".join(opt) if opt else "none"))
+        if any("" in r or len(r) < len(hdr) for r in rows):
+            ck.count("csvR_tables_with_blank_cells")
+        if any(len(r) < len(hdr) for r in rows):
+            ck.count("csvR_tables_with_trimmed_rows")
+        # --- malformed / perturbed tables: both readers
+        if n_mut < (12 if ck.quick else 150) and len(rs) <= 5:
+            n_mut += 1
+            for what, h2, r2 in mutate_table(ck, hdr, rows, len(titles)):
+                p2 = str(d / "mut.csv")
+                write_table(p2, h2, r2)
+                try:
+                    b2 = list(pr.from_csv(p2))
+                    iout2 = "read=" + "~".join(canon_rec(b) for b in b2)
+                    ck.count("csvRp_accepted")
+                except ERRS:
+                    iout2 = "read=ERR"
+                    ck.count("csvRp_rejected")
+                l2 = f"csvRp {'|'.join(cc(t) for t in h2)}" + "".join(" ; " + "|".join(cc(c) for c in r) for r in r2)
+                ops.append(l2)
+                ck.case(f"csvRp {what} {l2[:200]}", nontrivial=False)
+                expect.append(("csvRp", what.split(":")[0], l2, iout2, None))
+
+
 # ------------------------------------------------------------------ driver
 def streams(ck: Check) -> None:
     ops, expect = [], []
@@ -476,9 +744,14 @@ def streams(ck: Check) -> None:
     stream_plans(ck, ops, expect)
     stream_orderings(ck, ops, expect)
     stream_packings(ck, ops, expect)
+    stream_results(ck, ops, expect)
     outs = ck.model(ops)
     for (kind, stream, line, iout, ctx), mout in zip(expect, outs):
         short = line if len(line) < 300 else line[:300] + "…"
+        if kind in ("csvR", "csvRp"):
+            d = kv(mout)
+            if "read" in d:
+                mout = " ".join(f"{k}={canon_model_read(v) if k == 'read' else v}" for k, v in d.items())
         ck.compare(f"{kind}:{stream}", short, mout, iout)
         if kind in ("parse", "planparse", "ordparse") and mout != iout:
             # malformed stream: the property says nothing, but a reader that accepts what the other rejects is reported
